@@ -101,7 +101,14 @@ def correspondence(ctx, model_available=True):
                                              "case": {"op": n, "toks": t, "state": st.to_json()}})
                 continue
             sp = n in ("SET", "SETRF") and t[0][1] == 15
-            d = diff(arch_view(fin, sp), arch_view(spec, sp))
+            va, vb = arch_view(fin, sp), arch_view(spec, sp)
+            # Rt (R11) is the documented scratch register of NOT and of the label forms of the register branches:
+            # the property lets it change, it does not say to what.  (Not so when R11 is an operand.)
+            if (n == "NOT" and 11 not in (t[0][1], t[1][1])) or n in BRANCHES:
+                va = dict(va)
+                va["regs"] = list(va["regs"])
+                va["regs"][11] = vb["regs"][11]
+            d = diff(va, vb)
             if d:
                 res["spec_failures"].append({"what": "%s%s departs from its documented meaning: %s"
                                              % (n, tuple(v for _, v in t), d),
